@@ -185,7 +185,9 @@ def find_witness(actual, expected, argspecs, names=None, lane_bits=None, seed=0,
 
 
 def _find_witness(actual, expected, argspecs, names, lane_bits, seed, env_ok, watch, modes, fp):
-    budget = max(24, min(2600, 600000 // max(1, T.size(actual) + T.size(expected))))
+    sz = max(1, T.size(actual) + T.size(expected))
+    budget = max(24, min(2600, 600000 // sz))
+    cost = max(1, sz // 8) * (6 if fp else 1) * len(modes)
     for ne, args in enumerate(gen_envs(argspecs, seed)):
         if ne >= budget:
             break
@@ -200,10 +202,10 @@ def _find_witness(actual, expected, argspecs, names, lane_bits, seed, env_ok, wa
             if r is not None:
                 yield r
                 return
-        if ne and (ne & 15) == 0 and T._budget[1] is not None:
-            import time
-            if time.time() > T._budget[1]:
-                return
+        try:
+            T.work(cost)
+        except T.TooBig:
+            return
 
 
 def _one_env(actual, expected, args, names, lane_bits, watch, rm, fp):
@@ -346,10 +348,13 @@ def exhaustive_lanes(actual, expected, argspecs, names, lane_bits, env_ok=None, 
         if points + (1 << len(order)) > max_points:
             return None, "enumeration budget"
         nargs = len(argspecs)
-        import time as _time
+        szl = max(1, (T.size(ta) + T.size(te)) // 8)
         for v in range(1 << len(order)):
-            if (v & 255) == 0 and T._budget[1] is not None and _time.time() > T._budget[1]:
-                return None, "time budget"
+            if (v & 255) == 0:
+                try:
+                    T.work(256 * szl)
+                except T.TooBig:
+                    return None, "work budget"
             args = [0] * nargs
             for j, (k, b) in enumerate(order):
                 if (v >> j) & 1:
